@@ -13,9 +13,9 @@
 (*    tref    the reference temperature used for the T_ref/T scaling,      *)
 (*    fitted  the list `refs` as it was at the last fit.                   *)
 (* One action per public call: Init (the constructor fits), AppendRef,     *)
-(* ExtendRefs, PopRef, Fit.                                                *)
+(* ExtendRefs, InsertRef, PopRef, Fit.                                     *)
 (*                                                                         *)
-(* NAMED DEVIATION (what the code does): append / extend / pop only edit   *)
+(* NAMED DEVIATION (what the code does): append/extend/insert/pop only edit *)
 (* the list; offset and T_ref are NOT refitted until fit_HoRT_offset() is  *)
 (* called explicitly.  Variant = "explicit" models that: between an edit   *)
 (* and the next Fit the state is STALE (refs # fitted) and the property    *)
@@ -44,6 +44,7 @@ EXTENDS Lin, TLC
 
 CONSTANTS ND,        \* number of descriptors the references can contain
           RefKinds,  \* reference species that can be appended
+          InsKinds,  \* reference species that can be inserted before an existing one
           ExtSets,   \* lists that can be passed to extend
           InitSets,  \* lists the object can be constructed with
           MaxRefs, MaxOps,
@@ -115,6 +116,10 @@ ExtendRefs(rs) == /\ Len(refs) + Len(rs) <= MaxRefs /\ Len(h) <= MaxOps
                   /\ refs' = refs \o rs
                   /\ After(refs')                  \* explicit: offset NOT refitted (as in the code)
                   /\ h' = Append(h, Rec("extend", rs))
+InsertRef(p, r) == /\ Len(refs) < MaxRefs /\ p \in 0..(Len(refs) - 1) /\ Len(h) <= MaxOps
+                   /\ refs' = SubSeq(refs, 1, p) \o <<r>> \o SubSeq(refs, p + 1, Len(refs))
+                   /\ After(refs')                 \* explicit: offset NOT refitted (as in the code)
+                   /\ h' = Append(h, Rec("insert", <<r, p>>))
 PopRef(p) == /\ Len(refs) >= 2 /\ p \in 1..Len(refs) /\ Len(h) <= MaxOps
              /\ refs' = SubSeq(refs, 1, p - 1) \o SubSeq(refs, p + 1, Len(refs))
              /\ After(refs')                       \* explicit: offset NOT refitted (as in the code)
@@ -126,6 +131,7 @@ Fit == /\ Len(h) <= MaxOps /\ h[Len(h)].act # "fit"
 Next == \/ \E r \in RefKinds : AppendRef(r)
         \/ \E rs \in ExtSets : ExtendRefs(rs)
         \/ \E p \in 1..MaxRefs : PopRef(p)
+        \/ \E p \in 0..(MaxRefs - 1), r \in InsKinds : InsertRef(p, r)
         \/ Fit
 Spec == Init /\ [][Next]_vars
 
@@ -139,7 +145,7 @@ Optimal ==
                RLe(best, Norm2(Residual(refs, keys,
                       TLCEval([j \in 1..Len(keys) |-> IF j = k THEN RAdd(off[j], R(dlt)) ELSE off[j]]))))
 Reproduces == Fresh /\ RowsIndependent(refs, keys) => IsZeroVec(Residual(refs, keys, off))
-\* ... and a non-zero residual is possible otherwise: not asserted, see MC module (coverage)
+\* (otherwise the residual is in general non-zero and only NormalEquations / Optimal constrain it)
 KeysAreDescriptors == Fresh => keys = KeySeq(refs)
 TrefIsMean == Fresh => tref = MeanT(refs)
 \* implementation-shaped: the minimum-norm solution (orthogonal to the null space of A)
